@@ -16,6 +16,8 @@ def run(ctx):
     probes = 0
     dist = {}
     samples = []
+    chained = []
+    chain_budget = ctx.scale(150, 3000)
     for c in cases:
         ssuite.observe(c)
         dist["outcome:" + c.outcome] = dist.get("outcome:" + c.outcome, 0) + 1
@@ -37,6 +39,33 @@ def run(ctx):
                 rp = c.replay_dict()
                 rp.update(w=gen.vsrc(w), observed="S % v accepts w, S rejects w", expected="S accepts w")
                 ctx.violation("substitution widened the schema", rp)
+        # chained substitution (theorem subst_chain_narrows): (S % v) % v2 refines S % v and S
+        if isinstance(c.value, (list, dict)) and chain_budget > 0 and ctx.rng.random() < 0.3:
+            for origin2, v2 in chain_values(ctx, c):
+                chain_budget -= 1
+                c2 = ssuite.SCase()
+                c2.ssrc = "substitute(%s, %s)" % (c.ssrc, c.vsrc())
+                c2.schema, c2.value, c2.origin, c2.unmodelled = c.result, v2, "chain-" + origin2, None
+                ssuite.observe(c2)
+                chained.append(c2)
+                dist["chain:" + c2.outcome] = dist.get("chain:" + c2.outcome, 0) + 1
+                if c2.outcome != "ok":
+                    continue
+                for origin, w in ssuite.third_values(ctx, c2, limit=ctx.scale(4, 8)):
+                    probes += 1
+                    try:
+                        a3 = ssuite.accepts(c2.result, w)
+                        a2 = ssuite.accepts(c.result, w)
+                        a1 = ssuite.accepts(c.schema, w)
+                    except Exception as e:  # noqa
+                        continue
+                    dist["chain-probe:" + origin] = dist.get("chain-probe:" + origin, 0) + 1
+                    if a3 and not (a2 and a1):
+                        rp = c2.replay_dict()
+                        rp.update(w=gen.vsrc(w), first_schema=c.ssrc, first_value=c.vsrc(),
+                                  observed="(S %% v) %% v2 accepts w, %s rejects w" % ("S % v" if not a2 else "S"),
+                                  expected="every schema earlier in the chain accepts w")
+                        ctx.violation("chained substitution widened the schema", rp)
         if len(samples) < 4 and isinstance(c.value, (list, dict)) and c.value:
             samples.append({"schema": c.ssrc, "value": c.vsrc(), "result": common.srepr(c.result).replace("\n", " ")[:160]})
     for c in ssuite.bad_results(cases)[:5]:
@@ -44,7 +73,12 @@ def run(ctx):
         rp.update(observed="substitute returned a schema with ill-typed props: " + c.unmodelled[:300],
                   expected="a schema the DSL can build", theorem_or_suite="substitute correspondence")
         ctx.violation("substitute returned an ill-formed schema object", rp)
-    modelled = [c for c in cases if c.term is not None]
+    for c in ssuite.bad_results(chained)[:5]:
+        rp = c.replay_dict()
+        rp.update(observed="substitute returned a schema with ill-typed props: " + c.unmodelled[:300],
+                  expected="a schema the DSL can build", theorem_or_suite="substitute correspondence (chained)")
+        ctx.violation("substitute returned an ill-formed schema object", rp)
+    modelled = [c for c in cases + chained if c.term is not None]
     bad = common.eval_cases(ctx.workdir, "c05", [c.term for c in modelled], "subcase", "subcase_ok",
                             extra_requires="Require Import D42.FromNative D42.Substitute D42.CaseSubst.")
     for i in bad[:10]:
@@ -61,13 +95,30 @@ def run(ctx):
              "dicts at every depth, one-step perturbations, unrelated; for every successful S %% v third values w "
              "(v, values generated from S %% v under min/max/random tapes, perturbations of v and of generated values, "
              "values conforming to S): validate(S %% v, w) ok must imply validate(S, w) ok. Correspondence: structure of "
-             "the substituted schema / exception class vs the model. distinct_nontrivial = distinct successful "
+             "the substituted schema / exception class vs the model. Chained substitution (theorem subst_chain_narrows): for "
+             "about a third of the successful container substitutions, second values v2 (v again, values generated from S %% v "
+             "and partial forms of them, perturbations of v) are substituted into the RESULT; (S %% v) %% v2 must refine both "
+             "S %% v and S on its own third values, and the second step is compared with the model like the first. distinct_nontrivial = distinct successful "
              "substitutions of container values." % depth,
         samples=samples,
         correspondence={"suite": "substitute", "cases": len(modelled), "mismatches": len(bad),
-                        "unmodelled": len(cases) - len(modelled)},
+                        "unmodelled": len(cases) + len(chained) - len(modelled), "chained_cases": len(chained)},
         oracle_cases=ok_cases, probes=probes, distribution=dist,
     )
+
+
+def chain_values(ctx, c):
+    """second values for (S % v) % v2: v again, values generated from S % v (they fill what v left open),
+    conforming values of S % v with optional members dropped, one-step perturbations of v"""
+    import pyspec
+    r = ctx.rng
+    out = [("same", c.value)]
+    for good, g, _t in ssuite.gen_values(ctx, c.result, modes=("rand",)):
+        if good:
+            out.append(("generated", g))
+            out += [("partial-generated", p) for p in ssuite.partials(r, g, limit=2)]
+    out += [("perturbed", p) for p in gen.perturbations(r, c.value, limit=2)]
+    return [(o, v) for o, v in out if pyspec.is_plain(v)][:5]
 
 
 def replay(data):
